@@ -167,7 +167,10 @@ class Compiler:
         # Subquery.
         if isinstance(node, ast.Select):
             self.subquery = True
-            self.table = SubqueryTable(self._compile(node))
+            subquery = self._compile(node)
+            if isinstance(subquery, EvalPivot):
+                raise CompilationError('PIVOT BY is not supported in a subquery', node)
+            self.table = SubqueryTable(subquery)
             return None
 
         # Table reference.
@@ -582,6 +585,9 @@ class Compiler:
         self.subquery = isinstance(node.right, ast.Select)
         right = self._compile(node.right)
         self.subquery = False
+
+        if isinstance(right, EvalPivot):
+            raise CompilationError('PIVOT BY is not supported in a subquery', node.right)
 
         if isinstance(right, EvalQuery):
             if len(right.columns) != 1:
